@@ -2,7 +2,7 @@
 //
 // Pattern S: ONE real `DataReaderEntity::<()>::add_reader_change` from a directly constructed symbolic
 // pre-state (the read/take half of the property -- an access makes the instance NOT_NEW and changes
-// nothing else -- is asserted by the C20 harnesses `c20_read_n1*` / `c20_take_n1*`, tagged C20,C22).
+// nothing else -- is asserted by the C20 harnesses `c20_read_n1` (run with C22 as well) and `c20_take_n1`).
 // Two obligations chain two calls because the reader keeps no per-instance set of live writers, so
 // "unregistration by ALL writers" cannot be phrased over a single constructed state.
 //
